@@ -164,7 +164,12 @@ class Driver:
     def __init__(self):
         pass
 
+    _built = False
+
     def run(self, lines, timeout=3000):
+        if not Driver._built:
+            lake_build(['IRModel'])          # no-op when setup_cmd has run; needed in a bare snapshot
+            Driver._built = True
         data = '\n'.join(lines) + '\n'
         rc, out, err = run(['lake', 'env', 'lean', '--run', 'Driver.lean'], cwd=LEAN, input=data, timeout=timeout)
         res = out.split('\n')
